@@ -104,7 +104,7 @@ CaseResult body(Chooser& ch, Stats* st) {
 #ifndef VF_FUZZ
 int main(int argc, char** argv) {
   Options o = parse_options(argc, argv);
-  Prop a{"memsafe", body, 1.0, 1 /* isolate */, 3072, 60};
+  Prop a{"memsafe", body, 1.0, 1 /* isolate */, 3072, 10};
   return run_main(o, "C05", {a});
 }
 #else
